@@ -14,6 +14,7 @@ import (
 	"os"
 	"path/filepath"
 	"reflect"
+	"regexp"
 	"sort"
 	"strings"
 	"sync"
@@ -128,8 +129,20 @@ func ExportSchema(m *meta.Module) abs.Schema {
 				if hd, ok := d.(meta.HasDetails); ok {
 					n.Config = hd.Config()
 				}
+				n.WhenP = abs.Cond{Path: []string{}}
 				if hw, ok := d.(meta.HasWhen); ok && hw.When() != nil {
 					n.When = hw.When().Expression()
+					n.WhenP = ParseCond(n.When)
+					// RFC 7950 7.21.5: a when written on a uses / augment is evaluated on the
+					// node holding the uses / the augmented node; a leaf's own when on its
+					// parent (as the repository's tests fix it); a container's own on itself
+					n.WhenP.Ctx = "self"
+					if hw.When().OnParent() {
+						n.WhenP.Ctx = "parent"
+					}
+					if _, isLeaf := d.(meta.Leafable); isLeaf {
+						n.WhenP.Ctx = "parent"
+					}
 				}
 				switch y := d.(type) {
 				case *meta.Container:
@@ -159,6 +172,27 @@ func ExportSchema(m *meta.Module) abs.Schema {
 		}
 	}
 	walk(m, []string{}, nil, "")
+	// notifications: their content is described like a container's (kind "notification":
+	// no store holds them, the event drivers build payloads from it)
+	for _, nt := range sortedNotifs(m) {
+		n := abs.SNode{SP: []string{nt.Ident()}, Kind: "notification", Keys: []string{}, Dflt: []string{}, Cases: []abs.CaseRef{}, Enums: []abs.EnumDef{}, Bases: []string{},
+			Module: meta.OriginalModule(nt).Ident(), Config: false, WhenP: abs.Cond{Path: []string{}}}
+		out = append(out, n)
+		walk(nt, n.SP, n.Cases, "")
+	}
+	return out
+}
+
+func sortedNotifs(m *meta.Module) []*meta.Notification {
+	var names []string
+	for name := range m.Notifications() {
+		names = append(names, name)
+	}
+	sort.Strings(names)
+	var out []*meta.Notification
+	for _, name := range names {
+		out = append(out, m.Notifications()[name])
+	}
 	return out
 }
 
@@ -186,6 +220,19 @@ func typeTables(n *abs.SNode, t *meta.Type) {
 	}
 	walk(t.Base())
 	sort.Strings(n.Bases)
+}
+
+var condRe = regexp.MustCompile(`^\s*([A-Za-z0-9_\-/]+)\s*(<=|>=|!=|=|<|>)\s*(?:'([^']*)'|"([^"]*)"|(-?[0-9.]+))\s*$`)
+
+// ParseCond takes a comparison of the XPath subset apart (the fixtures only use this
+// form); anything else yields On = false.
+func ParseCond(expr string) abs.Cond {
+	m := condRe.FindStringSubmatch(expr)
+	if m == nil {
+		return abs.Cond{Path: []string{}}
+	}
+	lit := m[3] + m[4] + m[5]
+	return abs.Cond{On: true, Path: strings.Split(m[1], "/"), Op: m[2], Lit: lit}
 }
 
 // TypeName is the built-in base type as the harness needs it for value mapping.
